@@ -40,4 +40,21 @@ fn main() {
     gen1!(out_dir, "c32_cast_stream", "cast_stream", c32::cast_stream, ["input"]);
     gen1!(out_dir, "c32_cast_keyed", "cast_keyed", c32::cast_keyed, ["input"]);
     gen1!(out_dir, "c32_repeat_tick", "repeat_tick", c32::repeat_tick, ["keys", "vals"]);
+    use hv_hydro2_flows::{c31, c33, c34};
+    gen1!(out_dir, "c33_cnt", "cnt", c33::cnt, ["input"]);
+    gen1!(out_dir, "c33_fmax", "fmax", c33::fmax, ["input"]);
+    gen1!(out_dir, "c33_vcount", "vcount", c33::vcount, ["input"]);
+    gen1!(out_dir, "c33_kmax", "kmax", c33::kmax, ["input"]);
+    gen1!(out_dir, "c33_ksum", "ksum", c33::ksum, ["input"]);
+    gen1!(out_dir, "c33_kfirst_map", "kfirst_map", c33::kfirst_map, ["input"]);
+    gen1!(out_dir, "c33_kfirst_entries", "kfirst_entries", c33::kfirst_entries, ["input"]);
+    gen1!(out_dir, "c31_batches", "batches", c31::batches, ["input"]);
+    gen1!(out_dir, "c31_batch_snap", "batch_snap", c31::batch_snap, ["input"]);
+    gen1!(out_dir, "c31_state_counter", "state_counter", c31::state_counter, ["input"]);
+    gen1!(out_dir, "c31_state_prev_last", "state_prev_last", c31::state_prev_last, ["input"]);
+    gen1!(out_dir, "c31_two_batches", "two_batches", c31::two_batches, ["a", "b"]);
+    gen1!(out_dir, "c31_lookup_counts", "lookup_counts", c31::lookup_counts, ["incs", "gets"]);
+    gen1!(out_dir, "c34_atomic_sum", "atomic_sum", c34::atomic_sum, ["writes", "reads"]);
+    gen1!(out_dir, "c34_keyed_counter", "keyed_counter", c34::keyed_counter, ["incs", "gets"]);
+    gen1!(out_dir, "c34_plain_sum", "plain_sum", c34::plain_sum, ["writes", "reads"]);
 }
